@@ -191,7 +191,9 @@ fn hostile_request(rng: &mut Rng, k: u64, inv: &Inv, height: u32) -> (Value, Str
     (r, name.to_string())
 }
 
-pub fn c06_e2e(bin: &str, seed: u64, sessions: u64, valgrind_sessions: u64) -> E2eResult {
+pub fn c06_e2e(bin: &str, seed: u64, sessions: u64, valgrind_sessions: u64, asan: Option<(String, u64)>) -> E2eResult {
+    let asan_sessions = asan.as_ref().map(|a| a.1).unwrap_or(0);
+    let asan_reports = std::sync::atomic::AtomicU64::new(0);
     let acc = Mutex::new(Acc::new());
     let next = std::sync::atomic::AtomicU64::new(0);
     let calls = std::sync::atomic::AtomicU64::new(0);
@@ -200,10 +202,12 @@ pub fn c06_e2e(bin: &str, seed: u64, sessions: u64, valgrind_sessions: u64) -> E
         for _ in 0..crate::checks::threads().min(12) {
             sc.spawn(|| loop {
                 let i = next.fetch_add(1, std::sync::atomic::Ordering::Relaxed);
-                if i >= sessions + valgrind_sessions {
+                if i >= sessions + valgrind_sessions + asan_sessions {
                     break;
                 }
-                let vg = i >= sessions;
+                let vg = i >= sessions && i < sessions + valgrind_sessions;
+                let use_asan = i >= sessions + valgrind_sessions;
+                let bin: &str = if use_asan { asan.as_ref().map(|a| a.0.as_str()).unwrap_or(bin) } else { bin };
                 let mut rng = Rng::new(mix(seed, 0xC06 + i));
                 let vg_log = format!("{}/vg-{}-{}.log", crate::checks::out_dir(), std::process::id(), i);
                 let opts = json!({"trampoline-mpp-timeout": 1});
@@ -302,6 +306,11 @@ pub fn c06_e2e(bin: &str, seed: u64, sessions: u64, valgrind_sessions: u64) -> E
                 if !fin.bad_docs.is_empty() {
                     a.v("R06a|e2e-output-not-json", fin.bad_docs[0].clone());
                 }
+                if fin.stderr.contains("AddressSanitizer") {
+                    asan_reports.fetch_add(1, std::sync::atomic::Ordering::Relaxed);
+                    let line = fin.stderr.lines().find(|l| l.contains("AddressSanitizer")).unwrap_or("").to_string();
+                    a.v("R06b|e2e-asan-report", format!("AddressSanitizer stopped the plugin: {line}"));
+                }
                 if vg {
                     if let Ok(t) = std::fs::read_to_string(&vg_log) {
                         let mut g = vg_reports.lock().unwrap();
@@ -320,6 +329,8 @@ pub fn c06_e2e(bin: &str, seed: u64, sessions: u64, valgrind_sessions: u64) -> E
         coverage: json!({
             "sessions": sessions,
             "valgrind_sessions": valgrind_sessions,
+            "asan_sessions": asan_sessions,
+            "asan_reports": asan_reports.load(std::sync::atomic::Ordering::Relaxed),
             "hook_calls": calls.load(std::sync::atomic::Ordering::Relaxed),
             "request_kinds": a.classes,
             "valgrind_memcheck_reports(supplementary)": vg_reports.into_inner().unwrap(),
